@@ -5,11 +5,11 @@ package main
 // connection alone (`connections_independent`), whatever the others do at the same time.
 
 import (
-	"strings"
 	"context"
 	"fmt"
 	"io"
 	"net"
+	"strings"
 	"sync"
 	"time"
 )
